@@ -246,7 +246,7 @@ def flatModel (root : Str) (lists : List Str) (rows : List Cells) (settings : Ce
 open Lean in
 def opsFlat (op : String) (j : Json) : Option (Except String Json) :=
   match op with
-  | "flat.model" => some do
+  | "flat.model_lifted" => some do
       let rows ← (← getArr j "rows").toList.mapM pairList
       let lists ← getStrList j "lists"
       let settings ← pairList (← j.getObjVal? "settings")
